@@ -54,6 +54,14 @@ def workload(ctx, pid, mode, deep):
             got = [t for t, _ in out.model.stack]
             if got != types:
                 ctx.inconc('generator and model disagree on static types: %r vs %r' % (types, got))
+        if j % 6 == 0 and mode == 'values' and out.kind == 'agree':
+            # the same program as a contract through Interpreter.run_code (begin / execute / end, storage rendering)
+            from rv.core import lockstep as L_
+            oc = L_.run_both_contract(code, types, env, mode)
+            ctx.count('run_code_programs')
+            ctx.count('run_code_' + str(oc.kind))
+            if oc.kind == 'violation':
+                ctx.violation('%s|%s' % (pid, oc.sig), 'through Interpreter.run_code: ' + str(oc.detail), {'code': code, 'env': K.env_to_json(env), 'label': 'run_code', 'types': [list(map(str, [t])) for t in types]})
         if len(ctx.samples) < 3 and out.kind == 'agree' and len(out.mon.events) > 12:
             ctx.samples.append({'program': code, 'instructions_executed': len(out.mon.events), 'outcome': out.model.kind})
 
